@@ -6,6 +6,7 @@ namespace UtapModel.AM
 def cfgOfSource : WCfg :=
   { prob := Gen.XmlTables.writerEdgeLabels.contains "probability",
     ctrl := Gen.XmlTables.writerTransitionAttributes.contains "controllable",
-    bps := Gen.XmlTables.writerBranchpoints }
+    bps := Gen.XmlTables.writerBranchpoints,
+    sel := Gen.XmlTables.writerSelectAll && Gen.XmlTables.writerSelectDeclared }
 
 end UtapModel.AM
